@@ -67,3 +67,44 @@ Example C05_ex :
   [CbOp OOk; CbOp (OErr (e_arity 1 2)); CbOp (OWritten 1); CbOp OOk; CbOp (OErr e_closed_writer)] /\
   List.length (outs evs) = 4%nat.
 Proof. vm_compute. split; reflexivity. Qed.
+
+(* ---------- the whole connection against the executable oracle ---------- *)
+Require Import Wire.RobustFacts Wire.Case Spec.Oracles Spec.OracleFacts.
+
+(* every answered simple Query of the model — any query text, parser outcome, statement
+   list and handler programs without COPY, any encoder that does not panic in text
+   format — passes the oracle's cycle grammar [cycle_ok]: RowDescription / statement
+   start / DataRow, CommandComplete each acknowledged to the handler, Written() equal to
+   the rows delivered so far, failing calls emit nothing, Empty only on an untouched
+   writer, nothing after the ErrorResponse but the single ReadyForQuery, which is last *)
+Theorem C05_cycle_satisfies_oracle : forall c body rest tl evs fs',
+  cfg_nocopy c -> text_safe c ->
+  simple_query c body rest tl = (evs, fs', Continue) -> cycle_ok evs = true.
+Proof. exact query_cycle_ok. Qed.
+Print Assumptions C05_cycle_satisfies_oracle.
+
+(* and for a whole connection (any startup packet, middleware outcomes, byte stream):
+   the model's log passes [oracle_C05], the predicate evaluated on the implementation *)
+Theorem C05_model_satisfies_oracle : forall sc,
+  sc_auth sc = None -> case_nocopy sc = true ->
+  (forall v after rest, start (cfg_of_case sc) (sc_raw sc) = Some (v, after, rest) -> v <> version_ssl) ->
+  oracle_C05 sc (run_case sc) = true.
+Proof. exact oracle_C05_model. Qed.
+Print Assumptions C05_model_satisfies_oracle.
+
+Definition ex_case : scase :=
+  {| sc_limit := 0; sc_auth := None; sc_params := []; sc_version := []; sc_tls := false; sc_mws := [];
+     sc_term := None;
+     sc_parse := [(bs "select", cfg_parse ex_cfg (bs "select"));
+                  (bs "two", POk [ {| s_id := 2; s_cols := []; s_poids := []; s_prog := [HEmpty; HEmpty]; s_stop := true; s_ret := RetLast |};
+                                   {| s_id := 3; s_cols := []; s_poids := []; s_prog := [HComplete (bs "never")]; s_stop := false; s_ret := RetNil |} ])];
+     sc_raw := ((let body := be32 196608 ++ cstr (bs "user") ++ cstr (bs "a") ++ [x00] in be32 (4 + lenZ body) ++ body) ++
+               client_msg x51 (cstr (bs "select")) ++ client_msg x51 (cstr (bs " ")) ++ client_msg x51 (cstr (bs "two")) ++
+               client_msg x51 (cstr (bs "unknown")))%list;
+     sc_tlsin := None |}.
+Example C05_ex_model :
+  sc_auth ex_case = None /\ case_nocopy ex_case = true /\
+  List.length (client_frames ex_case) = 4%nat /\
+  List.length (outs (run_case ex_case)) = 16%nat /\
+  oracle_C05 ex_case (run_case ex_case) = true.
+Proof. vm_compute. repeat split. Qed.
